@@ -49,7 +49,7 @@ Definition KInv (s : state) : Prop :=
   (started s = false -> s_err s = 0%Z) /\
   (s_err s <> 0%Z ->
      (running s = false /\ s_err s = c_hdr_err c) \/
-     (s_err s = eCtx /\ cancelled s = true /\ cd_err s = 0%Z) \/
+     (s_err s = eCtx /\ cancelled s = true /\ cd_err s = 0%Z /\ oq s = [] /\ oq_closed s = true) \/
      (s_err s = cd_err s)) /\
   (* why the internal context is cancelled *)
   (cancelled s = true ->
@@ -94,8 +94,8 @@ Proof.
            assert (Hx0 := HD); eapply dn_c_recv in Hx0; try exact Hn; try exact Hwf; destruct Hx0 as [Hx0 _] end);
     first
     [ (* K5 after the context got cancelled *)
-      solve [ intros Hx; destruct (K5 Hx) as [A|[(A1 & A2 & A3)|A]];
-              [left; exact A | right; left; repeat split; (assumption || reflexivity) | right; right; exact A] ]
+      solve [ intros Hx; destruct (K5 Hx) as [A|[(A1 & A2 & A3 & A4 & A5)|A]];
+              [left; exact A | right; left; repeat split; first [assumption | reflexivity | (exfalso; pose proof (S2 A5) as Hsd; congruence)] | right; right; exact A] ]
     | (* K6: cause of the cancellation unchanged / serializer not done *)
       solve [ intros Hx; first [specialize (K6 Hx) | specialize (K6 eq_refl) | (assert (cancelled s = true) as Hy by assumption; specialize (K6 Hy))];
               destruct K6 as [A|[A|(A1 & A2 & A3)]];
@@ -148,4 +148,85 @@ Proof.
   exact (kinv_step l s s' o (reach_inv c Hn Hwf Hre Hnx s Hr) (reach_next c s Hr) (reach_sdone c s Hr) IH Hs).
 Qed.
 
+
+Definition complete (s : state) (e : err) : Prop :=
+  delivered s = expected (c_inp c) /\ final_err (c_inp c) = e.
+
+(* an error in cData means: every element before the file's final error has been delivered *)
+Lemma cd_err_complete : forall s, reach c s -> cd_err s <> 0%Z -> complete s (cd_err s).
+Proof.
+  intros s Hr Hne. destruct (reach_kinv s Hr) as (K1 & K2 & K3 & _).
+  destruct (reach_inv c Hn Hwf Hre Hnx s Hr) as (_ & (D1 & E0 & E1 & D4 & D7) & _).
+  assert (1 <= c_cnt s) as Hcc by (destruct (c_cnt s); [exfalso; apply Hne; apply K1; reflexivity|lia]).
+  specialize (K2 Hcc). rewrite (K3 Hne), app_nil_r in D4.
+  destruct (spec_end (c_inp c) (c_cnt s - 1) (cd_err s) Hwf) as [S1 S2].
+  - intros k Hk. specialize (E0 k ltac:(lia)). unfold res in E0. rewrite decode_err in E0. exact E0.
+  - rewrite K2. unfold res. rewrite decode_err. reflexivity.
+  - exact Hne.
+  - split; [|exact S2]. rewrite D4, S1.
+    replace (c_cnt s) with (S (c_cnt s - 1)) at 1 by lia. rewrite pre_S.
+    rewrite good_err_objs by (rewrite <- K2; exact Hne). rewrite app_nil_r. reflexivity.
+Qed.
+
+(* what a recorded error can be *)
+Lemma recorded_error : forall s, reach c s -> s_err s <> 0%Z ->
+  (running s = false /\ s_err s = c_hdr_err c) \/
+  (s_err s = eCtx /\ cancelled s = true) \/
+  complete s (s_err s).
+Proof.
+  intros s Hr Hne. destruct (reach_kinv s Hr) as (_ & _ & _ & _ & K5 & _).
+  destruct (K5 Hne) as [A|[(A1 & A2 & _)|A]]; [left; exact A|right; left; split; assumption|].
+  right; right. rewrite A. apply cd_err_complete; [exact Hr|]. rewrite <- A. exact Hne.
+Qed.
+
+(* Err() == nil only after a complete scan (or while nothing has ended or stopped the scan yet) *)
+Lemma err_nil_only_complete : forall s, reach c s -> c_hdr_err c <> eEOF -> err_value s = 0%Z ->
+  (s_err s = eEOF /\ complete s eEOF) \/ (s_err s = 0%Z /\ closed s = false /\ pcancelled s = false).
+Proof.
+  intros s Hr Hh Hv. unfold err_value in Hv.
+  destruct (Z.eqb (s_err s) eEOF) eqn:E1.
+  - left. apply Z.eqb_eq in E1. split; [exact E1|].
+    destruct (recorded_error s Hr) as [(_ & A)|[(A & _)|A]].
+    + rewrite E1. discriminate.
+    + exfalso. apply Hh. rewrite <- A. exact E1.
+    + rewrite E1 in A. discriminate A.
+    + rewrite E1 in A. exact A.
+  - right. destruct (is_err (s_err s)) eqn:E2.
+    + unfold is_err in E2. rewrite Hv in E2. discriminate E2.
+    + unfold is_err in E2. apply negb_false_iff, Z.eqb_eq in E2.
+      destruct (closed s); [discriminate Hv|]. destruct (pcancelled s); [discriminate Hv|]. auto.
+Qed.
+
+(* precedence: a recorded non-EOF error wins; else ErrScannerClosed after Close; else the context's
+   error after cancellation; else nil *)
+Lemma err_precedence : forall s,
+  (s_err s <> 0%Z -> s_err s <> eEOF -> err_value s = s_err s) /\
+  (s_err s = eEOF -> err_value s = 0%Z) /\
+  (s_err s = 0%Z -> closed s = true -> err_value s = eClosed) /\
+  (s_err s = 0%Z -> closed s = false -> pcancelled s = true -> err_value s = eCtx) /\
+  (s_err s = 0%Z -> closed s = false -> pcancelled s = false -> err_value s = 0%Z).
+Proof.
+  intros s. unfold err_value, is_err. repeat split.
+  - intros H1 H2. apply Z.eqb_neq in H1, H2. rewrite H1, H2. reflexivity.
+  - intros H. rewrite H. reflexivity.
+  - intros H1 H2. rewrite H1, H2. reflexivity.
+  - intros H1 H2 H3. rewrite H1, H2, H3. reflexivity.
+  - intros H1 H2 H3. rewrite H1, H2, H3. reflexivity.
+Qed.
+
+(* COMPLETES (safety half): in a run without Close and without cancellation of the caller's
+   context, and with a readable header, a scan can only end with the file's own final error, after
+   every element before it has been delivered — for EOF: the full sequence *)
+Lemma completes : forall s, reach c s -> c_hdr_err c = 0%Z ->
+  closed s = false -> pcancelled s = false -> s_err s <> 0%Z -> complete s (s_err s).
+Proof.
+  intros s Hr Hh Hcl Hpc Hne.
+  destruct (reach_kinv s Hr) as (K1 & K2 & K3 & K4 & K5 & K6).
+  destruct (K5 Hne) as [(_ & A)|[(A1 & A2 & A3 & A4 & A5)|A]].
+  - exfalso. apply Hne. rewrite A. exact Hh.
+  - exfalso. destruct (K6 A2) as [B|[B|(B1 & B2 & B3)]]; try congruence.
+    rewrite A4 in B2, B3. cbn [length] in B2, B3. rewrite Nat.add_0_r in B2, B3.
+    apply B3. rewrite <- (K2 B2). exact A3.
+  - rewrite A. apply cd_err_complete; [exact Hr|]. rewrite <- A. exact Hne.
+Qed.
 End Err.
